@@ -154,7 +154,7 @@ class Case:
     def line(self, cid, mode):
         toks = []
         for o in self.ops:
-            toks.append("%s%d=%s" % (o[0], o[1], fq(o[2])) if o[0] in ("u", "q") else "%s%d" % (o[0], o[1]))
+            toks.append("%s%d=%s" % (o[0], o[1], fq(o[2])) if o[0] in ("u", "q", "v") else "%s%d" % (o[0], o[1]))
         return "%s %s %s ; %s" % (cid, mode, d_sexpr(self.desc), " ".join(toks))
     def ops_coq(self):
         out = []
@@ -170,7 +170,7 @@ class Case:
         return r
     def to_json(self):
         return {"desc": d_sexpr(self.desc),
-                "ops": [("%s%d=%s" % (o[0], o[1], fq(o[2])) if o[0] in ("u", "q") else "%s%d" % (o[0], o[1])) for o in self.ops][:400],
+                "ops": [("%s%d=%s" % (o[0], o[1], fq(o[2])) if o[0] in ("u", "q", "v") else "%s%d" % (o[0], o[1])) for o in self.ops][:400],
                 "impl": ([b.js() for b in self.obs] if self.obs else None), "ctor_ok": self.ctor_ok, "meta": self.meta}
     @staticmethod
     def from_json(j):
@@ -178,7 +178,7 @@ class Case:
         d = parse_desc(toks)
         ops = []
         for t in j["ops"]:
-            if t[0] in ("u", "q"):
+            if t[0] in ("u", "q", "v"):
                 i, v = t[1:].split("=")
                 ops.append((t[0], int(i), v if v.startswith("x") else Fraction(v)))
             else:
@@ -424,7 +424,7 @@ def float_correspondence(tag, cases):
             c = cases[k]
             ops = []
             for o in c.ops:
-                if o[0] in ("u", "q"):
+                if o[0] in ("u", "q", "v"):
                     ops.append("OU %d %s" % (o[1], fq_coq(o[2])))
                 else:
                     ops.append("OL %d" % o[1] if o[0] == "l" else "OC %d" % o[1])
